@@ -24,6 +24,82 @@ pub enum Case {
     /// proposal conditioned on which parameter it moved and on the direction of the move
     /// before it - the draw that decides must be independent of the draws that proposed
     Short { k: usize, p: f64, steps: u64, first_seed: u64, runs: u64 },
+    /// the far tail: every proposal is worse than the start by d = ratio x kT; a run of
+    /// `steps` proposals "fires" when at least one of them was accepted (the returned state is
+    /// not the input).  The number of firing runs is Binomial(runs, 1 - (1 - e^-ratio)^steps).
+    Tail { ratio: f64, kt: f64, steps: u64, runs: u64, first_seed: u64 },
+}
+
+/// lean state for the tail runs: no sink, no lock - score is 0 for the starting vector and
+/// -d for anything else
+struct TailState {
+    vals: Vec<packing::SharedValue>,
+    start: Vec<u64>,
+    d: f64,
+}
+impl TailState {
+    fn new(d: f64) -> Self {
+        let vals: Vec<packing::SharedValue> = vec![packing::SharedValue::new(0.), packing::SharedValue::new(0.)];
+        TailState { start: vals.iter().map(|v| v.get_value().to_bits()).collect(), vals, d }
+    }
+    fn moved(&self) -> bool {
+        self.vals.iter().zip(self.start.iter()).any(|(v, s)| v.get_value().to_bits() != *s)
+    }
+}
+impl State for TailState {
+    fn score(&self) -> Option<f64> {
+        if self.moved() {
+            Some(-self.d)
+        } else {
+            Some(0.)
+        }
+    }
+    fn generate_basis(&self) -> Vec<packing::StandardBasis> {
+        self.vals.iter().map(|v| packing::StandardBasis::new(v, -1e6, 1e6)).collect()
+    }
+    fn total_shapes(&self) -> usize {
+        1
+    }
+    fn as_positions(&self) -> Result<String, anyhow::Error> {
+        Ok(String::new())
+    }
+}
+impl Clone for TailState {
+    fn clone(&self) -> Self {
+        TailState { vals: self.vals.iter().map(|v| packing::SharedValue::new(v.get_value())).collect(), start: self.start.clone(), d: self.d }
+    }
+}
+impl std::fmt::Debug for TailState {
+    fn fmt(&self, f: &mut std::fmt::Formatter) -> std::fmt::Result {
+        write!(f, "TailState")
+    }
+}
+impl serde::Serialize for TailState {
+    fn serialize<Z: serde::Serializer>(&self, s: Z) -> Result<Z::Ok, Z::Error> {
+        s.serialize_unit()
+    }
+}
+impl PartialEq for TailState {
+    fn eq(&self, _: &Self) -> bool {
+        true
+    }
+}
+impl Eq for TailState {}
+impl PartialOrd for TailState {
+    fn partial_cmp(&self, _: &Self) -> Option<std::cmp::Ordering> {
+        Some(std::cmp::Ordering::Equal)
+    }
+}
+impl Ord for TailState {
+    fn cmp(&self, _: &Self) -> std::cmp::Ordering {
+        std::cmp::Ordering::Equal
+    }
+}
+impl packing::traits::ToSVG for TailState {
+    type Value = svg::Document;
+    fn as_svg(&self) -> svg::Document {
+        svg::Document::new()
+    }
 }
 
 fn viol(what: &str, c: &Case, detail: Value) -> Violation {
@@ -158,6 +234,38 @@ pub fn check(c: &Case, st: &mut Stats) {
                 go!(PackedState::from_group(s, &wg))
             }
         }
+        Case::Tail { ratio, kt, steps, runs, first_seed } => {
+            use rayon::prelude::*;
+            st.eval();
+            let d = ratio * kt;
+            let fired: u64 = (0..*runs)
+                .into_par_iter()
+                .map(|r| {
+                    let mut b = packing::BuildOptimiser::default();
+                    b.steps(*steps).inner_steps(*steps).kt_start(*kt).kt_ratio(Some(0.)).max_step_size(1e-6).seed(first_seed + r);
+                    let out = std::panic::catch_unwind(std::panic::AssertUnwindSafe(|| {
+                        let fin = b.build().optimise_state(TailState::new(d));
+                        // the opaque result: its parameters tell whether anything was ever accepted
+                        crate::observe::spy::params_of(&fin).iter().any(|x| *x != 0.)
+                    }));
+                    matches!(out, Ok(true)) as u64
+                })
+                .sum();
+            let p_step = (-ratio).exp();
+            let p_run = 1. - (1. - p_step).powf(*steps as f64);
+            st.add("tail_proposals", runs * steps);
+            st.nontrivial(hash64(&[q(*ratio, 1e-6), q(kt.ln(), 1e-6), *steps, *runs]));
+            let bound = stats::tail_bound(fired, *runs, p_run);
+            if bound < 1e-12 {
+                st.violation(viol(
+                    "tail-acceptance-frequency-is-not-exp(-d/kT)",
+                    c,
+                    json!({"d_over_kT": ratio, "per_proposal_probability": p_step, "runs": runs, "proposals_per_run": steps, "runs_with_an_acceptance": fired, "expected": p_run * *runs as f64, "chernoff_bound": bound}),
+                ));
+                return;
+            }
+            st.sample(|| json!({"case": c, "runs_with_an_acceptance": fired, "expected": p_run * *runs as f64}));
+        }
         Case::Short { k, p, steps, first_seed, runs } => {
             st.eval();
             let d = -p.ln();
@@ -269,7 +377,7 @@ pub fn check(c: &Case, st: &mut Stats) {
 }
 
 pub fn run(ctx: &Ctx) {
-    ctx.set_rule("deterministic clauses on every resolved decision of scripted histories (better / equal / worse / undefined scores in adversarial orders) and of real hard/LJ states at a known constant temperature (kt_ratio = 0 or a single loop): undefined never accepted, better and equal always accepted, worse never accepted at kT = 0 nor when d/kT > 800, always when d/kT < 1e-17. Probabilistic clause: anchor/probe/sentinel scripts (anchor strictly better: always accepted; probe = anchor - d: the observation; sentinel undefined: certain rejection, so the probe's fate is read off the next vectors) at d/kT in {0.05,0.2,0.5,1,2,4,8} x kT in {1e-6,1e-3,0.1,0.5,10,1e6} x k in {4,16}, one loop and several loops; acceptance count vs Binomial(n, exp(-d/kT)) flagged only when the Chernoff/KL bound is < 1e-12; lag-1 autocorrelation of the accept sequence within 7/sqrt(n). Short runs: thousands of one- and two-step runs with different seeds, the acceptance of the worse proposal tallied per moved parameter and per direction of the preceding move (the deciding draw must not be correlated with the proposing draws). Non-trivial = (d,kT) cells with >= 1e4 resolved probes, and runs with resolved decisions; distinct by cell/case");
+    ctx.set_rule("deterministic clauses on every resolved decision of scripted histories (better / equal / worse / undefined scores in adversarial orders) and of real hard/LJ states at a known constant temperature (kt_ratio = 0 or a single loop): undefined never accepted, better and equal always accepted, worse never accepted at kT = 0 nor when d/kT > 800, always when d/kT < 1e-17. Probabilistic clause: anchor/probe/sentinel scripts (anchor strictly better: always accepted; probe = anchor - d: the observation; sentinel undefined: certain rejection, so the probe's fate is read off the next vectors) at d/kT in {0.05,0.2,0.5,1,2,4,8} x kT in {1e-6,1e-3,0.1,0.5,10,1e6} x k in {4,16}, one loop and several loops; acceptance count vs Binomial(n, exp(-d/kT)) flagged only when the Chernoff/KL bound is < 1e-12; lag-1 autocorrelation of the accept sequence within 7/sqrt(n). Short runs: thousands of one- and two-step runs with different seeds, the acceptance of the worse proposal tallied per moved parameter and per direction of the preceding move (the deciding draw must not be correlated with the proposing draws). Far tail: runs in which every proposal is worse by d = 10..22 kT; the number of runs with at least one acceptance is compared with Binomial(runs, 1 - (1 - e^(-d/kT))^steps) (quick: 1.5e10 proposals at d = 20.05 kT, p = 2e-9; thorough: up to 7e11 proposals at d = 24 kT, p = 4e-11). Non-trivial = (d,kT) cells with >= 1e4 resolved probes, and runs with resolved decisions; distinct by cell/case");
     ctx.assume("a statistical clause: deviations below the resolution of n probes are invisible; the false-alarm probability per cell is < 1e-12 by construction");
     let n_s = ctx.tier.pick(40u64, 2_000u64);
     let n_r = ctx.tier.pick(4u64, 150u64);
@@ -344,6 +452,18 @@ pub fn run(ctx: &Ctx) {
             .collect();
         for s in all {
             ctx.merge(s);
+        }
+    }
+    // the far tail of the acceptance probability (rare acceptances must still happen)
+    {
+        let tails: Vec<(f64, u64, u64)> = match ctx.tier {
+            Tier::Quick => vec![(10., 20_000, 4_000), (14., 100_000, 3_000), (17., 1_000_000, 1_000), (20.05, 1_000_000, 15_000)],
+            Tier::Thorough => vec![(10., 20_000, 40_000), (14., 100_000, 30_000), (17., 1_000_000, 12_000), (20.05, 1_000_000, 15_000), (22., 4_000_000, 28_000), (24., 16_000_000, 46_000)],
+        };
+        for (i, (ratio, steps, runs)) in tails.iter().enumerate() {
+            let mut st = Stats::new();
+            check(&Case::Tail { ratio: *ratio, kt: [0.5, 1e-3, 10.][i % 3], steps: *steps, runs: *runs, first_seed: seed.wrapping_mul(7_000_003).wrapping_add(i as u64 * 1_000_000_000) }, &mut st);
+            ctx.merge(st);
         }
     }
     std::panic::set_hook(prev);
